@@ -65,6 +65,13 @@ def layouts(tier="quick"):
     add("LENC(cal 8x),BLOB(LENC)", [("LENC", PType("LENC_T", "Integer", IntEnc(8, default_cal=Poly(((8.0, 1),))))),
                                     ("BLOB", PType("BLC_T", "Binary", BinEnc(Dyn("LENC", True))))],
         prefix=lambda ln: format(ln, "08b"), uses_len=True)
+    # the length field is calibrated (3x + 1) but the string asks for its RAW value: 8 x raw bits
+    add("LENR(cal 3x+1),STR(8 x raw LENR),u8", [("LENR", PType("LENC3_T", "Integer", IntEnc(8, default_cal=Poly(((1.0, 0), (3.0, 1)))))),
+                                                ("STR", PType("SDR_T", "String", StrEnc(Dyn(f"L{len(out)}_LENR", False, 8, 0), "ISO-8859-1"))), ("Z", U(8))],
+        prefix=lambda ln: format(ln, "08b"), uses_len=True)
+    add("LENR(cal 3x+1),BLOB(8 x raw LENR + 8),u8", [("LENR", PType("LENC3_T", "Integer", IntEnc(8, default_cal=Poly(((1.0, 0), (3.0, 1)))))),
+                                                     ("BLOB", PType("BDR_T", "Binary", BinEnc(Dyn(f"L{len(out)}_LENR", False, 8, 8)))), ("Z", U(8))],
+        prefix=lambda ln: format(ln, "08b"), uses_len=True)
     add("LEN,STR(lookup: LEN==1 -> 0 bits, else 16),u8", [("LEN", U(8)), ("STR", PType("SLZ_T", "String", StrEnc(
         Lookup((((Cmp("LEN", "==", "1"),), 0.0), ((Cmp("LEN", ">=", "0"),), 16.0))), "US-ASCII"))), ("Z", U(8))],
         prefix=lambda ln: format(ln, "08b"), uses_len=True)
